@@ -32,7 +32,10 @@ class Unsupported(Exception):
 PROFILES = {
     # the overlap scan of C05: strings are opaque (α), compared through konst::cmp_str / eq_str
     "utils": {"src": ("sylvia", "src", "utils.rs"), "out": "UtilsFns.lean", "ns": "Extracted.Utils", "imports": ["Sylvia.Model.RustSem"],
-              "opens": "open RustSem", "vars": "variable {α : Type} [DecidableEq α] (cmp_str : α → α → Ordering)", "str": "α", "only": None},
+              "opens": "open RustSem", "vars": "variable {α : Type} [DecidableEq α] (cmp_str : α → α → Ordering)", "str": "α",
+              # the five functions of the overlap scan only: another function added to the file is not this profile's business
+              "only": ["get_next_alphabetical_index", "init_states", "should_end", "verify_no_collissions", "assert_no_intersection"],
+              "only_enums": ["State"]},
     # the rule behind the published name lists (C03 / C05 / C10): strings are lists over the identifier alphabet `Casing.Ch`
     "casing": {"src": ("sylvia-derive", "src", "types", "msg_variant.rs"), "out": "CasingFns.lean", "ns": "Extracted.CasingFns",
                "imports": ["Sylvia.Model.RustSem", "Sylvia.Model.Casing"], "opens": "open RustSem Casing", "vars": "", "str": "List Ch",
@@ -70,6 +73,27 @@ PROFILES = {
                 "extern_enum_fields": {"Cow": {"Owned": ["_"], "Borrowed": ["_"]}},
                 "extern_calls": {"Binary::default": "(default : Binary)"},
                 "shape_of": ["Remote"], "trait_impls_of": ["Remote"]},
+    # `StripInput` (C13): what the contract / interface macros do to the annotated item before re-emitting it. syn's tree is the view
+    # declared in RustExtern.Syn; `SylviaAttribute::new` (which attributes are the framework's own: the regenerated table
+    # `svAttributes`) and `SylviaAttribute::Msg` are parameters
+    "strip": {"src": ("sylvia-derive", "src", "fold.rs"), "out": "StripFns.lean", "ns": "Extracted.StripFns",
+              "imports": ["Sylvia.Model.RustSem", "Sylvia.Model.RustExtern"], "opens": "open RustSem RustExtern RustExtern.Syn",
+              "vars": "variable {Attr R SylviaAttribute : Type} [DecidableEq SylviaAttribute]", "str": "String",
+              "only": ["remove_input_attr"], "only_enums": [], "only_structs": ["StripInput"],
+              "trait_only": ["StripInput.fold_trait_item_fn", "StripInput.fold_impl_item_fn", "StripInput.fold_item_trait", "StripInput.fold_item_impl"],
+              "leading_binders": "(svMsg : SylviaAttribute) (svNew : Attr → Option SylviaAttribute)", "leading_args": "svMsg svNew",
+              "extern_types": {"FnArg": "FnArg Attr R", "ImplItemFn": "ImplItemFn Attr R", "TraitItemFn": "TraitItemFn Attr R",
+                               "ItemImpl": "ItemImpl Attr R", "ItemTrait": "ItemTrait Attr R"},
+              "extern_generic": {"Punctuated": "List"},
+              "extern_enum_fields": {"FnArg": {"Receiver": ["_"], "Typed": ["_"]}},
+              "extern_structs": {"Receiver": "Receiver Attr R", "PatType": "PatType Attr R", "Signature": "Signature Attr R",
+                                 "ImplItemFn": "ImplItemFn Attr R", "TraitItemFn": "TraitItemFn Attr R", "ItemImpl": "ItemImpl Attr R", "ItemTrait": "ItemTrait Attr R"},
+              "extern_calls": {"SylviaAttribute::new": "svNew", "SylviaAttribute::Msg": "svMsg",
+                               "fold::fold_impl_item_fn": "Syn.fold_impl_item_fn", "fold::fold_trait_item_fn": "Syn.fold_trait_item_fn",
+                               "fold::fold_item_impl": "Syn.fold_item_impl (StripInput.fold_impl_item_fn svMsg svNew self)",
+                               "fold::fold_item_trait": "Syn.fold_item_trait (StripInput.fold_trait_item_fn svMsg svNew self)"},
+              "extern_call_drops_self": ["fold::fold_item_impl", "fold::fold_item_trait"],
+              "extern_calls_res": ["fold::fold_impl_item_fn", "fold::fold_trait_item_fn", "fold::fold_item_impl", "fold::fold_item_trait"]},
     # the bridge to chain-custom types (C11): `IntoMsg::into_msg` and `IntoResponse::into_response`, trait methods on cosmwasm_std's
     # SubMsg / Response (declared in Sylvia/Model/RustExtern.lean); arms compiled under `#[cfg(feature = "..")]` become
     # `if feat ".." then <arm> else <the wildcard arm>`, so the regenerated function is the code under every feature set at once
@@ -105,6 +129,15 @@ def cfg_feature(attr):
     if a.startswith('cfg(feature="') and a.endswith('")') and a.count('"') == 2:
         return a[len('cfg(feature="'):-2]
     raise Unsupported("attribute on a match arm: %s" % attr)
+
+
+LEAN_WORDS = {"rec", "end", "at", "from", "fun", "open", "show", "have", "then", "do", "where", "with", "in", "by", "calc", "instance", "class",
+              "structure", "theorem", "def", "example", "deriving", "namespace", "section", "variable", "universe", "mutual", "macro", "syntax", "notation"}
+
+
+def lid(x):
+    """a Rust identifier as a Lean identifier"""
+    return x + "_" if x in LEAN_WORDS else x
 
 
 def ch_literal(c):
@@ -207,7 +240,7 @@ class FnTr:
         if k == "wild":
             return "_"
         if k == "pid":
-            return p[1]
+            return lid(p[1])
         if k == "ppath":
             path = p[1]
             if path[-2:] == ["Ordering", "Greater"]:
@@ -221,6 +254,8 @@ class FnTr:
             raise Unsupported("path pattern %s" % path)
         if k == "pts":
             path, subs = p[1], p[2]
+            if len(path) > 2 and path[-2] in self.mod.enums and path[0] in ("std", "cosmwasm_std", "syn"):
+                path = path[-2:]
             if len(path) == 2 and path[0] in self.mod.enums:
                 fields = self.mod.enums[path[0]][path[1]]
                 if len(subs) == 1 and subs[0][0] == "rest":
@@ -299,6 +334,9 @@ class FnTr:
             dropped = self.mod.skipped_fields.get(sname_, set()) if sname_ else set()
             fields = [f for f in fields if f[0] not in dropped]
             names = [f[0] for f in fields]
+            if rest_ is not None and sname_ in self.mod.profile.get("extern_structs", {}) and sname_ not in self.mod.structs:
+                return self.ex(rest_, lambda rv: self.args([f[1] for f in fields], lambda vs: k(
+                    "({ %s with %s } : %s)" % (rv, ", ".join("%s := %s" % (n, v) for n, v in zip(names, vs)), self.mod.profile["extern_structs"][sname_]))))
             if rest_ is not None:
                 if not (sname_ in self.mod.structs):
                     raise Unsupported("struct update syntax on a foreign type")
@@ -320,8 +358,10 @@ class FnTr:
             p = e[1]
             if p == ["None"]:
                 return k("none")
+            if "::".join(p) in self.mod.profile.get("extern_calls", {}):
+                return k(self.mod.profile["extern_calls"]["::".join(p)])
             if len(p) == 1:
-                return k(p[0])
+                return k(lid(p[0]))
             if len(p) == 2 and p[0] in self.mod.enums:
                 return k("%s.%s" % (p[0], p[1]))
             raise Unsupported("path %s" % p)
@@ -368,6 +408,27 @@ class FnTr:
                 return self.ex(e[1], lambda r: k("(toStr %s)" % r))
             if name in ("to_owned", "clone") and not e[3]:
                 return self.ex(e[1], k)
+            if name == "is_none" and not e[3]:
+                return self.ex(e[1], lambda r: k("(%s).isNone" % r))
+            if name == "is_some" and not e[3]:
+                return self.ex(e[1], lambda r: k("(%s).isSome" % r))
+            if name == "collect" and not e[3] and not ((e[4] if len(e) > 4 else None) or ""):
+                src = e[1]
+                if src[0] == "mcall" and src[2] == "filter" and len(src[3]) == 1 and src[3][0][0] == "closure" and len(src[3][0][1]) == 1:
+                    cl = src[3][0]
+                    return self.ex(src[1], lambda xs: k("(List.filter (fun %s => %s) %s)" % (self.pat(cl[1][0]), self.pure(cl[2]), xs)))
+                if src[0] == "mcall" and src[2] == "map" and len(src[3]) == 1 and src[3][0][0] == "closure" and len(src[3][0][1]) == 1:
+                    cl = src[3][0]
+                    if self.depth:
+                        raise Unsupported("closure inside a loop")
+                    cpat = self.pat(cl[1][0])
+                    body = self.ex(cl[2], lambda v: [".ok %s" % v])
+
+                    def kc(xs):
+                        v = hint or self.fresh()
+                        return ["(mapRes (fun %s =>" % cpat] + ind(body, 2) + ["  ) %s).bind fun %s =>" % (xs, v)] + k(v)
+                    return self.ex(src[1], kc)
+                raise Unsupported("collect over something else than iter.map(|x| ..) / iter.filter(|x| ..)")
             if name in ("into_iter", "iter") and not e[3]:
                 return self.ex(e[1], k)      # a Vec / slice iterated in order: the list itself
             if name in ("any", "all") and len(e[3]) == 1 and e[3][0][0] == "closure" and len(e[3][0][1]) == 1:
@@ -438,10 +499,33 @@ class FnTr:
             raise Unsupported("conditionally compiled arms without one unconditional wildcard arm at the end")
         covered, enum = set(), None
         for a_ in arms:
-            if a_[0][0] in ("pts", "pstruct", "ppath") and len(a_[0][1]) == 2:
-                enum = a_[0][1][0]
-                covered.add(a_[0][1][1])
+            if a_[0][0] in ("pts", "pstruct", "ppath") and len(a_[0][1]) >= 2:
+                enum = a_[0][1][-2]
+                covered.add(a_[0][1][-1])
         ext = self.mod.profile.get("extern_enum_fields", {}).get(enum)
+        if any(a_[1] is not None for a_ in arms):
+            if any_cfg:
+                raise Unsupported("match guards together with conditionally compiled arms")
+            if not (wild and wild[-1] == len(arms) - 1 and arms[-1][1] is None):
+                raise Unsupported("match guards without a final unguarded wildcard arm")
+            # arm i with guard g: `| pat_i => if g then body_i else <arms i+1 .. matched against s again>`; the final wildcard is left
+            # out where the arms before it cover the foreign enum (Lean rejects a redundant alternative)
+            def arms_from(start):
+                if start == len(arms) - 1:
+                    return karm(arms[-1][2])
+                cov = {a_[0][1][-1] for a_ in arms[start:-1] if a_[0][0] in ("pts", "pstruct", "ppath")}
+                lines = ["match %s with" % s]
+                for i in range(start, len(arms) - 1):
+                    pat, guard, body, _attrs = arms[i]
+                    lines.append("| %s =>" % self.pat(pat))
+                    if guard is None:
+                        lines += ind(karm(body))
+                    else:
+                        lines += ind(["if %s then" % self.pure(guard)] + ind(karm(body)) + ["else"] + ind(arms_from(i + 1)))
+                if not (ext is not None and cov >= set(ext)):
+                    lines += ["| _ =>"] + ind(karm(arms[-1][2]))
+                return lines
+            return arms_from(0)
         for i, (pat, guard, body, _attrs) in enumerate(arms):
             if guard is not None:
                 raise Unsupported("match guard")
@@ -485,6 +569,14 @@ class FnTr:
             return self.ex(argl[0], lambda v: k("(Except.ok %s)" % v))
         if p == ["Err"] and len(argl) == 1:
             return self.ex(argl[0], lambda v: k("(Except.error %s)" % v))
+        if "::".join(p) in self.mod.profile.get("extern_call_drops_self", []) and argl and argl[0] == ["path", ["self"]]:
+            argl = argl[1:]
+        if "::".join(p) in self.mod.profile.get("extern_calls_res", []):
+            # a foreign function declared with a `Res` result (it runs translated code, or may panic)
+            def kx(vs):
+                v = hint or self.fresh()
+                return ["(%s).bind fun %s =>" % (" ".join([self.mod.profile["extern_calls"]["::".join(p)]] + vs), v)] + k(v)
+            return self.args(argl, kx)
         if "::".join(p) in self.mod.profile.get("extern_calls", {}):
             return self.args(argl, lambda vs: k("(%s)" % " ".join([self.mod.profile["extern_calls"]["::".join(p)]] + vs) if vs else self.mod.profile["extern_calls"]["::".join(p)]))
         if p == ["konst", "cmp_str"]:
@@ -492,7 +584,7 @@ class FnTr:
             return self.args(argl, lambda vs: k("(cmp_str %s %s)" % tuple(vs)))
         if p == ["konst", "eq_str"]:
             return self.args(argl, lambda vs: k("(%s == %s)" % tuple(vs)))
-        if len(p) > 2 and p[-2] in self.mod.enums and p[0] in ("std", "cosmwasm_std"):
+        if len(p) > 2 and p[-2] in self.mod.enums and p[0] in ("std", "cosmwasm_std", "syn"):
             p = p[-2:]
         if len(p) == 2 and p[0] in self.mod.enums:
             return self.args(argl, lambda vs: k("(%s.%s %s)" % (p[0], p[1], " ".join(vs))))
@@ -544,7 +636,7 @@ class FnTr:
                 pat, init = st[1], st[2]
                 if pat[0] != "pid" or init is None:
                     raise Unsupported("let pattern %s" % pat)
-                x = pat[1]
+                x = lid(pat[1])
                 self.declare_local(x, init, ctx)
                 pure = []
 
@@ -895,7 +987,7 @@ class ModTr:
                 return "List %s" % FnTr.paren_ty(self.ty(t[2][0]))
             if name in getattr(self, "structs", {}):
                 return self.struct_ty(name)
-            if name in self.profile.get("extern_generic", {}) and len(t[2]) == 1:
+            if name in self.profile.get("extern_generic", {}) and (len(t[2]) == 1 or name == "Punctuated"):
                 return "%s %s" % (self.profile["extern_generic"][name], FnTr.paren_ty(self.ty(t[2][0])))
             raise Unsupported("type constructor %s" % name)
         if k == "tpath":
